@@ -156,6 +156,7 @@ func EthTx(evmChainID *big.Int, priv cryptotypes.PrivKey, a EthTxArgs) ([]byte, 
 	}
 	msg := evmtypes.NewTx(args)
 	signer := ethtypes.LatestSignerForChainID(evmChainID)
+	msg.From = common.BytesToAddress(priv.PubKey().Address().Bytes()).Hex()
 	if err := msg.Sign(signer, testutiltx.NewSigner(priv)); err != nil {
 		return nil, common.Hash{}, err
 	}
